@@ -14,21 +14,30 @@ import numpy as np
 from harness.engine import impl, tlc
 from harness.engine.report import Report
 from harness.drivers import driver_pipeline as DP
-from harness.drivers.c13_driver import MC_CFG
+from harness.drivers.c13_driver import mc_cfg
 
 PROP = 'C05'
 
 
 def model_check(rep, tier):
-    runs = [(4, 6, 'WholeGrid', 'FALSE', 'TRUE'), (4, 6, 'NewAreasOnly', 'FALSE', 'FALSE'), (4, 6, 'NewAreasOnly', 'TRUE', 'TRUE')]
+    # (MAXK, MAXAREAS, STYLE, SUBTRACT_OLD, ALLOW_RESUME, SINGLE_STEP, RECALC): the bookkeeping as implemented (areas evaluated again first give back
+    # their previous contribution) keeps the running result equal to the combination also across resumes and periodic recalculation
+    runs = [(4, 6, 'WholeGrid', 'FALSE', 'TRUE', 'FALSE', 0), (4, 6, 'NewAreasOnly', 'TRUE', 'TRUE', 'FALSE', 0), (4, 6, 'NewAreasOnly', 'TRUE', 'TRUE', 'FALSE', 1),
+            (4, 6, 'NewAreasOnly', 'TRUE', 'TRUE', 'TRUE', 2), (4, 6, 'WholeGrid', 'FALSE', 'TRUE', 'TRUE', 1)]
     if tier == 'thorough':
-        runs += [(5, 8, 'WholeGrid', 'FALSE', 'TRUE'), (5, 8, 'NewAreasOnly', 'TRUE', 'TRUE')]
-    for k, a, style, sub, res in runs:
-        cfg = MC_CFG % (k, a, style, sub, res) + 'INVARIANT C05_ResultIsCombination\n'
+        runs += [(5, 8, 'WholeGrid', 'FALSE', 'TRUE', 'FALSE', 0), (5, 8, 'NewAreasOnly', 'TRUE', 'TRUE', 'FALSE', 2), (5, 8, 'NewAreasOnly', 'TRUE', 'TRUE', 'TRUE', 1)]
+    for k, a, style, sub, res, single, recalc in runs:
+        cfg = mc_cfg(k, a, style, sub, res, single, recalc) + 'INVARIANT C05_ResultIsCombination\n'
         r, _ = tlc.run('MC_Driver', cfg, PROP.lower(), timeout=1500)
-        rep.tlc('Driver MAXK=%d MAXAREAS=%d %s subtract_old=%s resume=%s' % (k, a, style, sub, res), r)
+        rep.tlc('Driver MAXK=%d MAXAREAS=%d %s subtract_old=%s resume=%s single_step=%s recalc=%d' % (k, a, style, sub, res, single, recalc), r)
         if r.violated:
             raise tlc.TLCError('Driver.tla violates %s (model-level)' % r.violated)
+    # control: without giving back the previous contribution (the bookkeeping before the repair) TLC must find the double count
+    for res, recalc in (('TRUE', 0), ('FALSE', 1)):
+        r, _ = tlc.run('MC_Driver', mc_cfg(4, 6, 'NewAreasOnly', 'FALSE', res, 'FALSE', recalc) + 'INVARIANT C05_ResultIsCombination\n', PROP.lower(), timeout=1500)
+        rep.tlc('Driver NewAreasOnly without subtraction, resume=%s recalc=%d (counterexample expected)' % (res, recalc), r, violated=r.violated)
+        if 'C05_ResultIsCombination' not in r.violated:
+            raise tlc.TLCError('vacuous: Driver.tla does not show the double count without subtraction (resume=%s recalc=%d)' % (res, recalc))
 
 
 def standard_traces(rep, tier):
@@ -119,7 +128,15 @@ def configs(tier):
          dict(strategy='extendsplit', D=2, lmin=1, lmax=3, func='vector', boundary=False),
          dict(strategy='extendsplit', D=2, lmin=1, lmax=2, func='cornerpeak', grid='lagrange2', auto=True),
          dict(strategy='extendsplit', D=2, lmin=1, lmax=2, func='product', grid='clenshaw', auto=True),
-         dict(strategy='extendsplit', D=2, lmin=1, lmax=2, func='cornerpeak', grid='simpson')]
+         dict(strategy='extendsplit', D=2, lmin=1, lmax=2, func='cornerpeak', grid='simpson'),
+         # periodic recalculation from scratch (recalculate_frequently) and the single_step option
+         dict(strategy='extendsplit', D=2, lmin=1, lmax=2, func='cornerpeak', recalc=2),
+         dict(strategy='extendsplit', D=2, lmin=1, lmax=2, func='vector', recalc=1, auto=True),
+         dict(strategy='dimwise', D=2, lmin=1, lmax=2, func='cornerpeak', recalc=1),
+         dict(strategy='extendsplit', D=2, lmin=1, lmax=2, func='product', single_step=True),
+         dict(strategy='extendsplit', D=2, lmin=1, lmax=2, func='cornerpeak', single=True),      # split_single_dim
+         dict(strategy='extendsplit', D=2, lmin=1, lmax=2, func='product', single=True, recalc=2, auto=True),
+         dict(strategy='dimwise', D=2, lmin=1, lmax=2, func='vector', single_step=True)]
     if tier == 'thorough':
         L += [dict(strategy='dimwise', D=3, lmin=1, lmax=2, func='product'),
               dict(strategy='dimwise', D=2, lmin=1, lmax=3, func='product', version=8),
@@ -129,7 +146,11 @@ def configs(tier):
               dict(strategy='extendsplit', D=2, lmin=2, lmax=3, func='vector'),
               dict(strategy='extendsplit', D=2, lmin=1, lmax=2, func='cornerpeak', grid='gauss', auto=True),
               dict(strategy='extendsplit', D=3, lmin=1, lmax=2, func='cornerpeak', grid='lagrange2', auto=True),
-              dict(strategy='extendsplit', D=2, lmin=1, lmax=3, func='vector', grid='clenshaw')]
+              dict(strategy='extendsplit', D=2, lmin=1, lmax=3, func='vector', grid='clenshaw'),
+              dict(strategy='extendsplit', D=3, lmin=1, lmax=2, func='cornerpeak', recalc=3),
+              dict(strategy='extendsplit', D=2, lmin=1, lmax=3, func='product', recalc=1, nrbe=2),
+              dict(strategy='extendsplit', D=2, lmin=1, lmax=2, func='cornerpeak', recalc=2, single_step=True),
+              dict(strategy='dimwise', D=3, lmin=1, lmax=2, func='cornerpeak', recalc=2, single_step=True)]
     for c in L:
         c.setdefault('norm', np.inf)
     return L
@@ -152,7 +173,7 @@ def run(tier, seed):
     traces = standard_traces(rep, tier)
     nstops = 3 if tier == 'quick' else 6
     for c in configs(tier):
-        name = '%s D=%d (%d,%d) %s' % (c['strategy'], c['D'], c['lmin'], c['lmax'], c['func'])
+        name = '%s D=%d (%d,%d) %s%s' % (c['strategy'], c['D'], c['lmin'], c['lmax'], c['func'], ''.join(' %s=%s' % (k, c[k]) for k in ('grid', 'auto', 'nrbe', 'version', 'recalc', 'single', 'single_step') if k in c))
         mx = 0
         for k in range(nstops):
             lims = {'tol': -1.0, 'min': 1, 'max': mx}
